@@ -255,3 +255,31 @@ def l7_alias_whole_words(ctx):
 
 
 RULES = [('L7', l7_alias_whole_words), ('L6', l6_alias_case), ('L1', l1_tables), ('L2', l2_month_spellings), ('L3', l3_printers), ('L4', l4_word_free), ('DU5', l5_formats)]
+
+
+def l8_first_letter(ctx):
+    """L8 printed month names are capitalised on their first *character*: uppercase_first_letter takes it with chars(), never
+    with a byte range (a multi-byte initial such as the ş of şubat would be cut or lost)"""
+    ctx.rule('L8', 'month names are capitalised by character', floor=1)
+    b = ctx.facts.one(r'^formatter::uppercase_first_letter$')
+    ctx.fn(b)
+    bad = []
+    for bid, t in b.calls(r'str::<impl str>::(get|get_unchecked|split_at|split_at_checked|as_bytes|bytes)$|ops::Index<core::ops::Range|Index<.*Range.*>>::index$|str::traits::<impl .*SliceIndex.*>'):
+        bad.append(t)
+    chars = list(b.calls(r'str::<impl str>::chars$|str::<impl str>::char_indices$'))
+    if bad:
+        for t in bad:
+            ctx.finding('L8', 'uppercase_first_letter/byte-slice', 'uppercase_first_letter takes a piece of the name by byte offsets (%s): names that start with a multi-byte letter (şubat, ağustos) lose or corrupt their initial' % t['callee']['path'].rsplit('::', 1)[-1], site=t['loc'])
+    elif not chars:
+        ctx.finding('L8', 'uppercase_first_letter/no-chars', 'uppercase_first_letter no longer walks the characters of the name', site=b.loc)
+    else:
+        ctx.ok('L8', 'uppercase_first_letter splits the name with chars()', 'units', site=b.loc)
+
+
+def l9_month_numbers(ctx):
+    """D6 (shared with C09): the month table is numbered index + 1, which is how get_month_info finds the name to print"""
+    from .C09 import d6_month_numbers
+    d6_month_numbers(ctx)
+
+
+RULES += [('L8', l8_first_letter), ('D6', l9_month_numbers)]
